@@ -465,6 +465,38 @@ def check_int_domain(fails):
                 return
 
 
+def check_same_interval_two_fields(fails):
+    """C13 deterministic family: the same interval queried, in ONE process and in both orders, on NUMERIC fields that differ
+    only in signedness (and on fields of different widths): each answer is the exact set for its own field - nothing
+    computed for one field may be reused for another."""
+    from whoosh import fields, query
+    from whoosh.filedb.filestore import RamStorage
+    specs = [("u8", 8, False), ("s8", 8, True), ("u16", 16, False), ("s16", 16, True), ("s32", 32, True), ("u32", 32, False)]
+    sch = fields.Schema(k=fields.ID(stored=True), **dict((nm, fields.NUMERIC(int, bits, signed=sg)) for nm, bits, sg in specs))
+    ix = RamStorage().create_index(sch)
+    vals = [0, 1, 5, 16, 17, 100, 127]
+    w = ix.writer()
+    for i, v in enumerate(vals):
+        if i == 4:
+            w.commit(merge=False)
+            w = ix.writer()
+        w.add_document(k=u"%d" % v, **dict((nm, v) for nm, _, _ in specs))
+    w.commit(merge=False)
+    intervals = [(0, 16), (1, 100), (5, 5), (17, 127), (0, 127), (16, 17)]
+    with ix.searcher() as s:
+        for order in (specs, specs[::-1], specs[1::2] + specs[0::2]):
+            for lo, hi in intervals:
+                for exl, exh in ((False, False), (True, False), (False, True)):
+                    exp = sorted(str(v) for v in vals if (lo < v if exl else lo <= v) and (v < hi if exh else v <= hi))
+                    for nm, bits, sg in order:
+                        got = sorted(h["k"] for h in s.search(query.NumericRange(nm, lo, hi, startexcl=exl, endexcl=exh), limit=None))
+                        if got != exp:
+                            fails.append({"case": "C01-two-fields/numrange", "detail": "NumericRange(%s, %d, %d, startexcl=%s, endexcl=%s) -> %r expected %r "
+                                          "(the same interval was queried on the other fields %r before, in this process)"
+                                          % (nm, lo, hi, exl, exh, got, exp, [x[0] for x in order]), "corpus": None})
+                            return
+
+
 def main():
     if sys.argv[1] == "--corpus":
         corpus = json.loads(sys.argv[2])
@@ -490,6 +522,7 @@ def main():
         check_big(fails)
         check_parsed_dates(fails)
         check_int_domain(fails)
+        check_same_interval_two_fields(fails)
     except Exception as e:
         fails.append({"case": "exception/big", "detail": "%s: %s | %s" % (type(e).__name__, e, traceback.format_exc()[-400:]), "corpus": None})
     import shutil
